@@ -275,6 +275,9 @@ func planE1(prop, tier string) *e1Plan {
 		} else {
 			p.add(scopeImp(2, true), K2)
 		}
+		mp, mc := scopeMirror()
+		p.pkgs = append(p.pkgs, mp...)
+		p.cases = append(p.cases, mc...)
 		p.rule = "S-imp: all ordered selections of ≤k packages from the 23-package pool × source alias modes, one source file per import; oracle: import specs vs. go/types PkgName uses (exact, unique, canonical, valid identifiers, alias kept, sync iff methods), zero type errors"
 	case "C12":
 		p.oracle = oracleC12
@@ -309,6 +312,9 @@ func planE1(prop, tier string) *e1Plan {
 		} else {
 			p.add(scopeImp(2, true), K2)
 		}
+		mp, mc := scopeMirror()
+		p.pkgs = append(p.pkgs, mp...)
+		p.cases = append(p.cases, mc...)
 		p.rule = "every case of the generator-space scopes under the worker watchdog and a 64 MB stack limit; oracle: the generator returns output or an error naming the type or stage; a worker death (stack exhaustion, fatal error), an escaped panic or a watchdog expiry is a violation"
 	default:
 		fatalf("planE1: %s", prop)
